@@ -12,6 +12,7 @@ CONSTANTS
   ArmLate = {"discard"}
   RegCtxs = {"plain"}
   ResCtxs = {"plain"}
+  FactoryFail = {}
   SkipUnwinding = {}
   ArgsByRef = FALSE
 INVARIANTS TypeOK CallbackOnce RightOutcome HelperFreedOnce ConvertedValueOrException PublishedResumable ArgsAsPassed NoStuckState
